@@ -75,7 +75,12 @@ claim('C09',
       'BMC deadlock-freedom on the extracted relation: for every schedule of <= depth steps, the reached state is not a fixed point of every '
       'Reconcile(id) (one probe copy of T per id, fault-free) while some accepted transaction with all targets connected is not final; contract: an '
       'aborted proposal leaves both target indexes past itself. Waypoint chains continue 14 steps from one reachable state per class of the '
-      'first two (thorough: three) transactions. Watcher event->id maps and timers are assumed per the controller library contract.',
+      'first two (thorough: three) transactions. Work sets (DESIGN.md A.8): in a second configuration (device refusals on) the state carries the '
+      'controllers\' pending reconcile requests - a reconcile runs only while its request is pending; requests come from store events (mapped to ids '
+      'as pkg/controller/v2/*/watcher.go does), from Result.Requeue of the real Reconcile, from an error return (retry) and from the environment - '
+      'and BMC decides that no reachable state has every queue empty while re-examining a record changes the state (first sentence) or while, with '
+      'every target connected, a transaction is not final (second sentence). The event->id mapping is restated in the harness: a change to watcher.go '
+      'itself is NOT seen; a device answering PermissionDenied with no later master is outside. Timers per the controller library contract.',
       PROTO_NOTE, 'SSA symbolic execution -> transition relation; bounded model checking with fixed-point probes (z3)', 'DESIGN.md 6/C09')
 claim('C10',
       'Real mastership + configuration + proposal reconcilers with connection loss, device restart and re-connection under a new connection id '
@@ -90,11 +95,15 @@ claim('C11',
       'transaction is stranded and sends stay in order.',
       PROTO_NOTE, 'SSA symbolic execution -> transition relation; SMT step contracts + BMC (z3)', 'DESIGN.md 6/C11')
 claim('C12',
-      'Panic-site obligations of the real handlers: every nil dereference, index/slice bound, type assertion, nil-map write, regexp.MustCompile '
+      'Panic-site obligations of the real handlers: every nil dereference, index/slice bound, integer division, type assertion, nil-map write, '
+      'regexp.MustCompile, big.NewFloat(NaN) '
       'reached by symbolic execution of Server.Set, Server.Subscribe and Server.Get (prefix absent / target only / with an element, 0..2 paths of 0..2 '
       'elements from a pool of ordinary names, gNMI wildcards and regular-expression metacharacters, keys, every encoding and data type, '
       'extensions, empty and populated configuration) over shape-generic requests (optional/nil fields, 0..n elements, symbolic short names over an '
-      'alphabet with every byte the handlers treat specially, keys, extensions) is an obligation decided by z3; SAT = concrete request, replayed '
+      'alphabet with every byte the handlers treat specially, keys, extensions incl. override entries without a value) is an obligation decided by '
+      'z3; a third Set mode names nodes of the model (leaf, key leaf, list entry, container) with every alternative of the value oneof (strings, bool, '
+      'bytes, JSON, symbolic int / uint, decimals with symbolic digits and concrete precisions 0,1,18,19,64,65, floats as concrete cases finite / '
+      '+-Inf / NaN, leaf-lists) so that value conversion, key check and change construction are reached; SAT = concrete request, replayed '
       'natively under recover().',
       'Also the admin LeafSelectionQuery handler (known/unknown target, change context absent / empty / with an update, replace or delete whose path and '
       'value may be absent, empty and populated configuration). Bounds: name/value lengths, pools and element counts in evidence.bounds; Capabilities and the '
@@ -128,7 +137,8 @@ claim('C13',
       'The real Server.Set (getTargetInfo, doUpdateOrReplace, doDelete, computeChange, extensions, FindPathFromModel, CheckKeyValue, IsPathValid) '
       'against a reference resolver written on parsed elements: 0..2 operations over a pool of 8 paths (model leaves, non-model path, textual prefix '
       'of a model path, list leaf, key leaf with symbolic value, container, list entry) x update/delete x symbolic per-path and prefix targets '
-      '(none, t1, known-without-plugin, unknown) x symbolic size limit x malformed extensions: refused => error and no Create; accepted => exactly '
+      '(none, t1, known-without-plugin, unknown) x the first path element in the operation or in the request prefix x symbolic size limit x malformed '
+      'extensions: refused => error and no Create; accepted => exactly '
       'one Create whose change names exactly the effective target and, per operation, the named path, kind and value.',
       'Pool and operation count bounds as stated; JSON-valued updates outside (plugin GetPathValues). Trusted: go/ssa, executor, z3.',
       'SSA symbolic execution + SMT (z3), case-split request shapes vs reference resolver', 'DESIGN.md 6/C13')
